@@ -267,6 +267,10 @@ func c15(c *an.Ctx) {
 		}
 	})
 
+	c.Check("R-SIBLING", "graphql.Flatten and federation.mergeSameAlias merge same-alias selections only after rejecting pairs that differ in field name, arguments or in having sub-selections (detectConflicts covers only the top level)", 8, func(o *an.O) {
+		ruleSameAliasAgreement(c, o)
+	})
+
 	c.Check("R-CMP", "values decoded from client JSON (interface{}) are never compared with == / != : two lists or objects would panic with 'comparing uncomparable type'", 1, func(o *an.O) {
 		// every function of the packages that handle client-supplied values: graphql (parser,
 		// validation, executor, server) and its schema builder adapters (argument parsing).
